@@ -199,13 +199,16 @@ func cmdCheck(args []string) int {
 		fmt.Fprintf(os.Stderr, "INCONCLUSIVE property=%s: no harness\n", id)
 		return 2
 	}
-	cfg := Config{Solver: *solver, TimeoutMs: *timeout, Unwind: 64, StepLimit: 20_000_000, CaseMax: 32, Workers: *workers, SolverLog: *slog, Trace: *trace}
+	cfg := Config{Solver: *solver, TimeoutMs: *timeout, Unwind: 256, StepLimit: 20_000_000, CaseMax: 32, Workers: *workers, SolverLog: *slog, Trace: *trace}
 	if *tier == "thorough" {
 		cfg.Tier = 1
-		cfg.Unwind = 256
+		cfg.Unwind = 1024
 		cfg.StepLimit = 200_000_000
 	}
 	R := NewResults()
+	if id == "SELF" {
+		R.wantVectors = 60
+	}
 	q := newQueue(cfg.Workers)
 	theQueue = q
 	// deterministic job order, rotated by seed
@@ -281,7 +284,7 @@ func cmdCheck(args []string) int {
 		cfg2 := cfg
 		cfg2.Solver = *cross
 		cfg2.Tier = 0
-		cfg2.Unwind = 64
+		cfg2.Unwind = 256
 		R2 := NewResults()
 		q2 := newQueue(cfg2.Workers)
 		theQueue = q2
